@@ -74,6 +74,9 @@ let errkind_s = function
   | EExtensionNotFound -> "E:ExtensionNotFound" | EEmpty -> "E:Empty"
   | EInvalidExpansion -> "E:InvalidExpansion" | EMultipleHomeSymbols -> "E:MultipleHomeSymbols"
   | EVarNotPresent -> "E:VarNotPresent" | EOther -> "E:Other"
+  | EDoesNotExist -> "E:DoesNotExist" | EIsNotDir -> "E:IsNotDir" | EIsNotFile -> "E:IsNotFile"
+  | EIsNotSymlink -> "E:IsNotSymlink" | EDirContainsFiles -> "E:DirContainsFiles" | EExistsAlready -> "E:ExistsAlready"
+  | ELinkLooping -> "E:LinkLooping" | EInvalidData -> "E:IoInvalidData" | EChmodSym -> "E:VfsInvalidChmod"
 let out_res f = function Inl a -> f a | Inr e -> errkind_s e
 let out_strlist l = "L:" ^ String.concat "," (List.map hex_str l)
 
